@@ -1,10 +1,22 @@
 import GeomV.C10.GenWrites
+import GeomV.C10.GenBodies
 import GeomV.C10.Ctors
 /-! Regenerated tie for the constructor `AEA` (/repo/proj): the fields it assigns in the Go source (go/ast
 extraction, `GenWrites.lean`, rewritten on every run) are exactly the model's write set; its closures
 assign nothing; no compound assignment; the SR is passed on only to the modelled callees; no field
 address is taken. -/
+set_option linter.unusedSimpArgs false
 namespace GeomV.C10
 theorem tie_AEA :
     Gen.ctorWrites.lookup "AEA" = some (writeSet .aea, [], [], calleesOf .aea, []) := by decide
+
+/-- Regenerated tie for the VALUES and CONDITIONS: the slice of `AEA`'s body that decides its writes and
+its error (extracted by go/ast into `GenBodies.lean` on every run), interpreted by `IR.run`, equals the
+model `initP .aea` for every SR and every float semantics. -/
+theorem tie_body_AEA : BodyTie Gen.ctorBodies .aea := by
+  open IR POps in
+  intro F R _ p
+  simp only [run, Gen.ctorBodies, goFunc, List.lookup]
+  cases h1 : lt (abs (add p.lat1 p.lat2)) epsln <;>
+    simp [exec, eval, getF, setFld, cstV, call1F, binF, initP, initAEA, parallelsBad, nanDefault, h1]
 end GeomV.C10
